@@ -123,7 +123,7 @@ var c18Names = []string{"plain", "a b", "tab\there", "q\"uote", "é", "日本", 
 func c18GenTree(r *rand.Rand, prefix string, n int, modes bool) []c18Entry {
 	out := []c18Entry{}
 	seen := map[string]bool{}
-	for len(out) < n {
+	for tries := 0; len(out) < n && tries < 400; tries++ {
 		depth := r.IntN(3)
 		parts := []string{}
 		for d := 0; d <= depth; d++ {
